@@ -182,11 +182,14 @@ impl Prop for C12 {
     fn cases(&self, tier: Tier, build: &str) -> u32 {
         match (tier, build) {
             (Tier::Quick, "fast") => 20_000,
+            (Tier::Quick, "asan") => 1_600,
             (Tier::Quick, _) => 8_000,
             (Tier::Thorough, "fast") => 120_000,
+            (Tier::Thorough, "asan") => 8_000,
             (Tier::Thorough, _) => 30_000,
         }
     }
+    fn builds(&self, _tier: Tier) -> Vec<&'static str> { vec!["fast", "checked", "asan"] }
     fn rule(&self) -> &'static str {
         "cases = (any structure from the shared generators, which iterator: iter() / (&x).into_iter() / into_iter(), a call history over {next, next_back, len}, a cyclic drain pattern applied until exhaustion, then 12 more calls); trees are checked against a VecDeque with len() compared after every step; bit and quad iterators for order, count, exact length and staying exhausted; non-trivial = n >= 3 and (trees) a next_back after a next plus a call after exhaustion; distinct = hash of the whole case"
     }
